@@ -67,23 +67,23 @@ theorem xorRunBytes_exact (ops : List Op) (data parity : List Bytes) (bs : Nat)
   rw [zip_map_restore bs _ data hl.1 hd, zip_map_restore bs _ parity hl.2 hp]
 
 theorem eraseBufs_tmp {V : Type} (zero : V) (T : XorTable) (E : List Nat) (x : XState V) :
-    (eraseBufs zero T E x).tmp = x.tmp := by
+    (xorEraseBufs zero T E x).tmp = x.tmp := by
   induction E generalizing x with
   | nil => rfl
   | cons e E ih =>
-    simp only [eraseBufs, List.foldl_cons] at ih ⊢
+    simp only [xorEraseBufs, List.foldl_cons] at ih ⊢
     rw [ih]
     unfold XorTable.bufOf
     split <;> rfl
 
 theorem eraseBufs_lens (bs : Nat) (T : XorTable) (E : List Nat) (x : XState Bytes)
     (hd : ∀ b ∈ x.data, b.length = bs) (hp : ∀ b ∈ x.parity, b.length = bs) :
-    (∀ b ∈ (eraseBufs (zeros bs) T E x).data, b.length = bs) ∧
-    (∀ b ∈ (eraseBufs (zeros bs) T E x).parity, b.length = bs) := by
+    (∀ b ∈ (xorEraseBufs (zeros bs) T E x).data, b.length = bs) ∧
+    (∀ b ∈ (xorEraseBufs (zeros bs) T E x).parity, b.length = bs) := by
   induction E generalizing x with
   | nil => exact ⟨hd, hp⟩
   | cons e E ih =>
-    simp only [eraseBufs, List.foldl_cons] at ih ⊢
+    simp only [xorEraseBufs, List.foldl_cons] at ih ⊢
     apply ih
     · intro b hb
       unfold XorTable.bufOf at hb
@@ -122,8 +122,8 @@ theorem xorBackend_encode (T : XorTable) (bs : Nat) (d : List Bytes) (hk : d.len
     decoded back to the full stripe. -/
 theorem xorBackend_decode (T : XorTable) (hT : T ∈ LecGen.xorTables) (bs : Nat) (d : List Bytes)
     (hk : d.length = T.k) (hd : ∀ x ∈ d, x.length = bs) (E : List Nat) (hE : T.ErasureList E) :
-    (xorBackend T).decode (eraseBufs (zeros bs) T E (T.stripe bs d)).data
-        (eraseBufs (zeros bs) T E (T.stripe bs d)).parity E bs
+    (xorBackend T).decode (xorEraseBufs (zeros bs) T E (T.stripe bs d)).data
+        (xorEraseBufs (zeros bs) T E (T.stripe bs d)).parity E bs
       = .ok (d, (List.range T.m).map (fun j => interp bs d (T.pbm j))) := by
   obtain ⟨ops, hp, h1, h2⟩ := xorTables_decode_bytes T hT bs d hk hd E hE
   obtain ⟨l1, l2⟩ := eraseBufs_lens bs T E _ (stripe_lens T hd).1 (stripe_lens T hd).2
@@ -131,11 +131,11 @@ theorem xorBackend_decode (T : XorTable) (hT : T ∈ LecGen.xorTables) (bs : Nat
   rw [hp]
   show xorRunBytes ops _ _ bs = _
   rw [xorRunBytes_exact _ _ _ _ l1 l2]
-  have e : (⟨(eraseBufs (zeros bs) T E (T.stripe bs d)).data,
-      (eraseBufs (zeros bs) T E (T.stripe bs d)).parity, zeros bs⟩ : XState Bytes)
-      = eraseBufs (zeros bs) T E (T.stripe bs d) := by
+  have e : (⟨(xorEraseBufs (zeros bs) T E (T.stripe bs d)).data,
+      (xorEraseBufs (zeros bs) T E (T.stripe bs d)).parity, zeros bs⟩ : XState Bytes)
+      = xorEraseBufs (zeros bs) T E (T.stripe bs d) := by
     have := eraseBufs_tmp (zeros bs) T E (T.stripe bs d)
-    cases hx : eraseBufs (zeros bs) T E (T.stripe bs d) with
+    cases hx : xorEraseBufs (zeros bs) T E (T.stripe bs d) with
     | mk a b c => rw [hx] at this; simp only [XorTable.stripe] at this; simp [this]
   rw [e, h1, h2]
 
@@ -143,20 +143,20 @@ theorem xorBackend_decode (T : XorTable) (hT : T ∈ LecGen.xorTables) (bs : Nat
 theorem xorBackend_reconstruct (T : XorTable) (hT : T ∈ LecGen.xorTables) (bs : Nat)
     (d : List Bytes) (hk : d.length = T.k) (hd : ∀ x ∈ d, x.length = bs) (E : List Nat)
     (hE : T.ErasureList E) (dest : Nat) (hdest : dest ∈ E) :
-    ∃ d' p', (xorBackend T).reconstruct (eraseBufs (zeros bs) T E (T.stripe bs d)).data
-        (eraseBufs (zeros bs) T E (T.stripe bs d)).parity E dest bs = .ok (d', p') ∧
+    ∃ d' p', (xorBackend T).reconstruct (xorEraseBufs (zeros bs) T E (T.stripe bs d)).data
+        (xorEraseBufs (zeros bs) T E (T.stripe bs d)).parity E dest bs = .ok (d', p') ∧
       (XState.mk d' p' (zeros bs)).get (zeros bs) (T.bufOf dest)
         = (T.stripe bs d).get (zeros bs) (T.bufOf dest) := by
   obtain ⟨ops, hp, h1⟩ := xorTables_recon_bytes T hT bs d hk hd E hE dest hdest
   obtain ⟨l1, l2⟩ := eraseBufs_lens bs T E _ (stripe_lens T hd).1 (stripe_lens T hd).2
-  have e : (⟨(eraseBufs (zeros bs) T E (T.stripe bs d)).data,
-      (eraseBufs (zeros bs) T E (T.stripe bs d)).parity, zeros bs⟩ : XState Bytes)
-      = eraseBufs (zeros bs) T E (T.stripe bs d) := by
+  have e : (⟨(xorEraseBufs (zeros bs) T E (T.stripe bs d)).data,
+      (xorEraseBufs (zeros bs) T E (T.stripe bs d)).parity, zeros bs⟩ : XState Bytes)
+      = xorEraseBufs (zeros bs) T E (T.stripe bs d) := by
     have := eraseBufs_tmp (zeros bs) T E (T.stripe bs d)
-    cases hx : eraseBufs (zeros bs) T E (T.stripe bs d) with
+    cases hx : xorEraseBufs (zeros bs) T E (T.stripe bs d) with
     | mk a b c => rw [hx] at this; simp only [XorTable.stripe] at this; simp [this]
-  refine ⟨(runOps xorBytes (zeros bs) ops (eraseBufs (zeros bs) T E (T.stripe bs d))).data,
-    (runOps xorBytes (zeros bs) ops (eraseBufs (zeros bs) T E (T.stripe bs d))).parity, ?_, ?_⟩
+  refine ⟨(runOps xorBytes (zeros bs) ops (xorEraseBufs (zeros bs) T E (T.stripe bs d))).data,
+    (runOps xorBytes (zeros bs) ops (xorEraseBufs (zeros bs) T E (T.stripe bs d))).parity, ?_, ?_⟩
   · show runPlan (T.planReconOne E dest) _ _ bs = _
     rw [hp]
     show xorRunBytes ops _ _ bs = _
